@@ -534,6 +534,29 @@ do_bind(int k)
 	unlink(fout);
 }
 
+#include "c11_seq.h"
+
+/* times of day for SEQ: the midnight and hour seams; thorough adds every full minute */
+static int seq_tods[1500], nseq_tods;
+
+static void
+mk_seq_tods(int thorough)
+{
+	static const int base[] = {0, 1, 3599, 3600, 43200, 79200, 82800, 86399};
+	for (int i = 0; i < 8; i++) {
+		seq_tods[nseq_tods++] = base[i];
+	}
+	for (int m = 0; thorough && m < 1440; m++) {
+		int s = m * 60, dup = 0;
+		for (int i = 0; i < 8; i++) {
+			dup |= base[i] == s;
+		}
+		if (!dup) {
+			seq_tods[nseq_tods++] = s;
+		}
+	}
+}
+
 int
 main(int argc, char *argv[])
 {
@@ -544,9 +567,10 @@ main(int argc, char *argv[])
 	ex_init(argc, argv);
 	rc_selfcheck();
 	mk_durs();
+	ex_wd_init(1000);	/* zone lookups of the SEQ zone variants run under the watchdog */
 
 	if (ex.cas) {
-		int a[6] = {0};
+		int a[6] = {0}, b7[1] = {0};
 		if (!strncmp(ex.cas, "ADD ", 4) && sscanf(ex.cas + 4, "%d %d %d %d", a, a + 1, a + 2, a + 3) == 4 &&
 		    a[0] >= 0 && a[0] < NHELD && rc_get(a[1]) && a[2] >= 0 && a[2] <= 86400 && a[3] >= 0 && a[3] < NDUR) {
 			return ex_replay_result(judge_add(a[0], a[1], a[2], a[3], 1), "addition rep=%s", held_name[a[0]]);
@@ -560,6 +584,24 @@ main(int argc, char *argv[])
 		if (!strncmp(ex.cas, "DIFF ", 5) && sscanf(ex.cas + 5, "%d %d %d %d %d", a, a + 1, a + 2, a + 3, a + 4) == 5 &&
 		    a[0] >= 0 && a[0] < NHELD && rc_get(a[1]) && rc_get(a[3])) {
 			return ex_replay_result(judge_diff(a[0], a[1], a[2], a[3], a[4], 1), "difference rep=%s", held_name[a[0]]);
+		}
+		if (!strncmp(ex.cas, "SEQ ", 4) && sscanf(ex.cas + 4, "%d %d %d %d %d %d %d", a, a + 1, a + 2, a + 3, a + 4, a + 5, b7) == 7 &&
+		    a[0] >= 0 && a[0] < NHELD && rc_get(a[1]) && a[2] >= 0 && a[2] < 86400 && (a[3] == 2 || a[3] == 3) &&
+		    a[4] >= 0 && a[4] < NSEQA && a[5] >= 0 && a[5] < NSEQA && b7[0] >= 0 && b7[0] < NSEQA) {
+			int k;
+			mk_seqs(1);
+			k = a[3] == 2 ? a[4] * NSEQA + a[5] : nseq2 + (a[4] * NSEQA + a[5]) * NSEQA + b7[0];
+			return ex_replay_result(judge_seq(a[0], a[1], a[2], k, k + 1, 1), "sequence of %d durations rep=%s", a[3], held_name[a[0]]);
+		}
+		if (!strncmp(ex.cas, "SEQZ ", 5) && sscanf(ex.cas + 5, "%d %d %d", a, a + 1, a + 2) == 3 &&
+		    a[0] >= 0 && a[0] < NSEQZ && a[1] >= 0 && a[1] < NSEQZT && a[2] >= 0 && a[2] < NSEQA * NSEQA) {
+			mk_seqs(0);
+			return ex_replay_result(judge_seqz(a[0], a[1], a[2], 1), "--from-zone %s then two durations", seq_zones[a[0]]);
+		}
+		if (!strncmp(ex.cas, "SEQB ", 5) && sscanf(ex.cas + 5, "%d %d %d %d", a, a + 1, a + 2, a + 3) == 4 &&
+		    a[1] >= 0 && a[1] < NSEQZ && a[2] >= 0 && a[2] < NSEQZT && a[3] >= 0 && a[3] < NSEQA * NSEQA) {
+			mk_seqs(0);
+			return ex_replay_result(judge_seqb(a[0] != 0, a[1], a[2], a[3], 1), "dadd binary with zone %s and two durations", seq_zones[a[1]]);
 		}
 		if (!strncmp(ex.cas, "BIND ", 5) && sscanf(ex.cas + 5, "%d %d", a, a + 1) == 2 && a[0] >= 0 && a[0] < NBIND) {
 			/* the binding compares whole runs; replay re-runs that run */
@@ -577,19 +619,29 @@ main(int argc, char *argv[])
 	}
 
 	nbday = ex.thorough ? NBDAY : NBDAY_QUICK;
+	mk_seqs(ex.thorough);
+	mk_seq_tods(ex.thorough);
 	ex_meta("rule", "oracle: Unix seconds (reference day ordinal x 86400 + second of the day). ADD/SEAM: the date-time is parsed from its "
 		"representation's text as the tools parse it, the duration is parsed by dt_io_strpdtdur as dadd parses it, dt_dtadd is applied, "
 		"the result is printed as dadd prints it (year-day values with an explicit %%Y-%%jT%%T, day counts with %%FT%%T) and decoded by a "
 		"table-walking decoder: it must be exactly n x unit seconds later; results outside 1601..4095 are skipped and counted. "
 		"MIL: T24:00:00 must print with %%s, add and subtract a second and differ from the next T00:00:00 as 00:00:00 of the following day does. "
 		"EPOCH: @N and -i %%s must print the civil date-time of N, every held representation must print N with %%s. "
+		"SEQ: several durations in one dadd invocation (one dt_io_strpdtdur parser state, dt_dtadd per duration on the running value, as "
+		"src/dadd.c does): the printed result must be start + sum of the steps; the day carry left in the value by one step must not be seen by "
+		"the next; class keys name the shape of the steps (x = crosses a midnight, d = exact multiple of a day incl. 0, n = neither), not their "
+		"values; zone variants: --from-zone values that cross midnight on their way to UTC (the UTC start is the implementation's own single "
+		"conversion, zone correctness is C12's) and --zone output (expected text = single conversion of the model's result). "
 		"DIFF: what ddiff A B -f %%S prints (ddiff.c's determine_durfmt/determine_durtype/dt_dtdiff/__strfdtdur) must be Unix(B) - Unix(A). "
 		"non-trivial = addition whose result lies on another day than its start; difference whose clock part has the other sign than its day part");
 	ex_meta("bound", "ADD: %d boundary days x 86,400 seconds x %d durations (+-{1,59,60,61,3599,3600,3601,86399,86400,86401,172800,604800,31536000,2^31-1} "
 		"x {s,m,h}) x 6 held representations (ymd ywd yd ymcw daisy epoch); SEAM: 911,280 days x {00:00:00,23:59:59} x {+-1s,+-86400s} x 6; "
 		"MIL: 911,280 days x {ymd,ywd,ymcw} x 4 checks; EPOCH: 911,280 days x {23:59:59 before, 00:00:00, 00:00:01} and %d days x 86,400 s, "
-		"2 inputs + 7 outputs each; DIFF: (40 seam days x 7 times)^2 ordered pairs x 6 representations, and 911,280 days x 4 neighbour pairs x 3",
-		nbday, NDUR, nbday);
+		"2 inputs + 7 outputs each; SEQ: %d boundary days x %d times of day (00:00:00 00:00:01 00:59:59 01:00:00 12:00:00 22:00:00 23:00:00 23:59:59%s) "
+		"x 6 representations x all %d ordered pairs of the %d-duration alphabet (+1s -1s +2h -2h +90m -90m +24h -24h +48h -48h +1440m +86400s -86400s +0s +3600s +25h -25h)%s; "
+		"--from-zone at library level: %d zones x 8 local times x all pairs; dadd binary: the same zones and times x the 33 pairs containing +24h x {--from-zone, --zone}; DIFF: (40 seam days x 7 times)^2 ordered pairs x 6 representations, and 911,280 days x 4 neighbour pairs x 3",
+		nbday, NDUR, nbday, nbday, nseq_tods, ex.thorough ? " and every full minute" : "", nseq2, NSEQA,
+		ex.thorough ? ", and all 4,913 ordered triples on the first 6 boundary days" : "", ex.thorough ? NSEQZ : NSEQZ_QUICK);
 	ex_meta("binding", "dadd / dconv -f %%s / ddiff -f %%S binaries of the same build, one process per run on the 86,400 seconds of a boundary day "
 		"from stdin (%d runs), byte-compared with the library-level observation", ex.thorough ? NBIND : NBIND_QUICK);
 
@@ -609,6 +661,41 @@ main(int argc, char *argv[])
 				ex_sample("ADD %04d-%02d-%02d hour %02d (3600 seconds) %s-held x %d durations", bdays[bd][0], bdays[bd][1], bdays[bd][2],
 					  hr, held_name[add_reps[r]], NDUR);
 			}
+		}
+	}
+	/* SEQ: slice = (boundary day, representation, block of times) */
+	for (int bd = 0; bd < nbday; bd++) {
+		int rd = bday_rd(bd);
+		for (int r = 0; r < NADDREP; r++) {
+			for (int t0 = 0; t0 < nseq_tods; t0 += 64, slice++) {
+				if (!ex_mine(slice) || ex_expired()) {
+					continue;
+				}
+				for (int t = t0; t < t0 + 64 && t < nseq_tods; t++) {
+					++*c_states;
+					judge_seq(add_reps[r], rd, seq_tods[t], 0, bd < NBDAY_QUICK ? nseq : nseq2, 0);
+				}
+				ex_sample("SEQ %04d-%02d-%02d %s-held: %d times of day x %d duration sequences", bdays[bd][0], bdays[bd][1], bdays[bd][2],
+					  held_name[add_reps[r]], nseq_tods - t0 < 64 ? nseq_tods - t0 : 64, bd < NBDAY_QUICK ? nseq : nseq2);
+			}
+		}
+	}
+	/* SEQ zone variants: slice = (zone, local time) */
+	for (int zi = 0; zi < (ex.thorough ? NSEQZ : NSEQZ_QUICK); zi++) {
+		for (int ti = 0; ti < NSEQZT; ti++, slice++) {
+			if (!ex_mine(slice) || ex_expired()) {
+				continue;
+			}
+			++*c_states;
+			for (int k = 0; k < nseq2; k++) {
+				judge_seqz(zi, ti, k, 0);
+				if (seqs[k].idx[0] == SEQ_24H || seqs[k].idx[1] == SEQ_24H) {
+					judge_seqb(0, zi, ti, k, 0);
+					judge_seqb(1, zi, ti, k, 0);
+				}
+			}
+			ex_sample("SEQ zone %s local time second %d: all %d pairs after --from-zone, dadd binary on the pairs with +24h", seq_zones[zi],
+				  seq_ztod[ti], nseq2);
 		}
 	}
 	/* SEAM: slice = year */
@@ -687,9 +774,11 @@ main(int argc, char *argv[])
 				  ddays[ia][0], ddays[ia][1], ddays[ia][2]);
 		}
 	}
-	/* BIND */
+	/* BIND: the watchdog timer is switched off first (an interrupted read() would cut a comparison short) */
 	{
 		int nb = ex.thorough ? NBIND : NBIND_QUICK;
+		struct itimerval zt = {{0, 0}, {0, 0}};
+		setitimer(ITIMER_REAL, &zt, NULL);
 		for (int k = 0; k < nb; k++, slice++) {
 			if (ex_mine(slice) && !ex_expired() && binds[k].bday < NBDAY) {
 				do_bind(k);
